@@ -359,9 +359,10 @@ struct Physics {
     h.add(t);
     h.add(dt);
     h.mix(static_cast<std::uint64_t>(call));
-    // every end-of-step field (study level and structure level)
-    w->visit(s, [&h](const char*, auto& f, const char* cls) {
-      if (std::string(cls) == "end") put(f, h);
+    // every end-of-step field (study level and structure level) but the unknowns, which are
+    // corrected (not overwritten) by the Newton update below: a non finite prediction stays non finite
+    w->visit(s, [&h](const char* n, auto& f, const char* cls) {
+      if ((std::string(cls) == "end") && (std::string(n) != "u1")) put(f, h);
     });
     // study level: the new iterate is u1 - r (K = identity)
     for (std::size_t i = 0; i != r.size(); ++i) {
@@ -476,6 +477,7 @@ static std::string op_run(Tokens& tk) {
       (*v)[2] = (*v)[0] + 0.25;
     }
     w->st.period = 1;
+    w->st.dt_1 = 0;  // as in a fresh StudyCurrentState: no previous time step yet
     w->st.revert();
     return w;
   };
